@@ -278,6 +278,36 @@ def gen_cases(ctx, n):
                     (okv, 'C13:' + nm, 'args %r want %r; vector %r want %r' % (rec.calls[-1], want_args, got, ref)),
                     dict(args=(x, y, z), vector=vin), tol=True)
 
+        # ---------------- vector wrappers must not modify the vector object the wrapped function returns ------------
+        if it % 5 == 0:
+            for cls, nm in ((cm.VectorAxisymmetricMapper, 'vaxi'), (cm.VectorCylindricalTransform, 'vcyl')):
+                shared = Vector3D(rng.uniform(-2, 2), rng.uniform(-2, 2), rng.uniform(-2, 2))
+                keep = (shared.x, shared.y, shared.z)
+                rec = Rec(vector=True)
+                rec.ret = shared
+                w = cls(rec)
+                pts = [(rng.uniform(-3, 3), rng.uniform(-3, 3), rng.uniform(-1, 1)) for _ in range(3)] + [(-1.5, 0.0, 0.2), (-2.0, -0.0, 0.1)]
+                for (px, py, pz) in pts:
+                    st, res = call(w, px, py, pz)
+                    if st != 'ok':
+                        ctx.fail('C13:%s:raised' % nm, '%s raised %s at %r' % (cls.__name__, st, (px, py, pz)), dict(args=(px, py, pz)))
+                        break
+                    phi = math.atan2(py, px)
+                    c_, s_ = math.cos(phi), math.sin(phi)
+                    ref = (c_ * keep[0] - s_ * keep[1], s_ * keep[0] + c_ * keep[1], keep[2])
+                    got = (res.x, res.y, res.z)
+                    if (shared.x, shared.y, shared.z) != keep:
+                        ctx.fail('C13:%s:modifies-wrapped-functions-vector' % nm,
+                                 '%s changed the Vector3D object returned by the wrapped function: %r -> %r' % (cls.__name__, keep, (shared.x, shared.y, shared.z)),
+                                 dict(points=pts, vector=keep))
+                        break
+                    if any(abs(g - r_) > 1e-12 * max(1.0, max(abs(t) for t in keep)) for g, r_ in zip(got, ref)):
+                        ctx.fail('C13:%s:repeated-evaluation' % nm,
+                                 '%s at %r after earlier evaluations returned %r, the rotated vector is %r' % (cls.__name__, (px, py, pz), got, ref),
+                                 dict(points=pts, vector=keep))
+                        break
+                ctx.case(key=(nm + '-shared-vector', f2b(keep[0])))
+
         # ---------------- polygon mask -------------------------------------------------------------------------
         if it % 4 == 0:
             sc = rng.choice([1.0, 1.0, 1e-3, 1e3, 5.0])
@@ -405,6 +435,25 @@ def _sampler_variants(ctx, cm, rng):
     ok = ok and all(_same(rec.calls[i], pts3[i]) and tuple(v4[i]) == (1.0 + 0.25 * (i + 1), -0.5, 2.0) for i in range(n1))
     if not ok:
         ctx.fail('C13:samplevector_grid_points:order', 'vector grid/points samplers order', dict(xs=xs, ys=ys, zs=zs))
+    # returned arrays belong to the caller: editing them must not influence later calls
+    for nm_, f_, args_ in (('sample1d', cm.sample1d, ((a1[0], a1[1], n1),)),
+                           ('sample2d', cm.sample2d, ((a1[0], a1[1], n1), (a1[0], a1[1], n1))),
+                           ('sample3d', cm.sample3d, ((a1[0], a1[1], n1), (a2[0], a2[1], n2), (a1[0], a1[1], n1))),
+                           ('samplevector2d', cm.samplevector2d, ((a1[0], a1[1], n1), (a2[0], a2[1], n2)))):
+        vec = nm_.startswith('samplevector')
+        first = f_(Rec(vector=vec), *args_)
+        copies = [np.array(a_, copy=True) for a_ in first]
+        for a_ in first:
+            try:
+                a_ *= 3.0
+                a_ += 1.0
+            except ValueError:
+                pass                        # read-only result arrays are fine
+        second = f_(Rec(vector=vec), *args_)
+        if not all(np.array_equal(c_, b_) for c_, b_ in zip(copies, second)):
+            ctx.fail('C13:%s:result-aliases-shared-state' % nm_,
+                     '%s%r: after the caller edited the arrays returned by the first call, a second identical call returns different grids/values' % (nm_, args_),
+                     dict(sampler=nm_, ranges=args_))
     ctx.case(key=('samplers', n1, n2))
     # invalid ranges rejected
     for bad in ((1.0, 0.0, 3), (0.0, 1.0, 0)):
